@@ -143,11 +143,13 @@ Record srt := mk_srt {
   copt : cors_opt;              (* CORS options as given *)
   rcors : cors;                 (* sanitised (model side) *)
   allwf : bool;                 (* every pattern accepted so far is well-formed (the properties' quantifier) *)
+  opn : nat;                    (* number of operations absorbed so far = index of the current one *)
+  amb : list nat;               (* indexes of the requests for which the documented procedure admits several answers *)
   shapeunk : bool;              (* a Handle of a pattern outside the well-formed fragment was rejected: the implementation may
                                    have split nodes on the way before failing (same routes, other tree shape) - dumps not compared *)
 }.
 #[export] Instance eta_srt : Settable _ :=
-  settable! mk_srt <rt; facs; unsup; pid; tc; live; uses; addonly; memo; rejected; frame; syn; copt; rcors; allwf; shapeunk>.
+  settable! mk_srt <rt; facs; unsup; pid; tc; live; uses; addonly; memo; rejected; frame; syn; copt; rcors; allwf; opn; amb; shapeunk>.
 
 (* cfg … <n> ic… cors <n> origins… <n> allow-headers… <n> exposed… max-age creds *)
 Definition no_cors : cors_opt :=
@@ -175,7 +177,7 @@ Definition init_rt (pid : bytes) (h : list line) : srt :=
   {| rt := new_router (arg 2 cfg) ic (argb 1 cfg) (arg 3 cfg); facs := []; unsup := false; pid := pid;
      tc := {| c_trace := argb 1 cfg; c_router := arg 2 cfg; c_ic := ic |};
      live := []; uses := []; addonly := true; memo := []; rejected := false; frame := []; syn := [];
-     copt := cors_of_cfg cfg; rcors := opt_default deny_cors (cors_sanitize (cors_of_cfg cfg)); allwf := true; shapeunk := false |}.
+     copt := cors_of_cfg cfg; rcors := opt_default deny_cors (cors_sanitize (cors_of_cfg cfg)); allwf := true; opn := O; amb := []; shapeunk := false |}.
 
 Definition target_facade (s : srt) (t : bytes) : option facade :=
   if beqb t (bs "r") then None else alookup t (facs s).
@@ -295,7 +297,7 @@ Definition step_rt (s : srt) (o : line) : srt * list bytes :=
     | None => (s, url_obs (r_url (rt s) (argb 2 o) (arg 3 o) ps))
     | Some f => (s, url_obs (f_url (rt s) f (argb 2 o) (arg 3 o) ps))
     end
-  else if beqb op (bs "c19eq") then (s, [bs "1"])     (* facade run == desugared run, observation by observation *)
+  else if beqb op (bs "c19eq") then (s, [bs "judged"])  (* facade run == desugared run, observation by observation: see the oracle *)
   (* outside the modelled fragment (an audit of the model against the source, DESIGN section 10): regexp rules see
      runes where the model sees bytes; strings.EqualFold / TrimSpace on the requested header names are Unicode-aware;
      http.Header canonicalises keys; the CORS headers are written before a handler script runs *)
@@ -333,6 +335,7 @@ Definition cl (c : String.string) : bytes := bs c.
 Definition check (b : bool) (c : String.string) : list bytes := if b then [] else [bs c].
 
 Definition obs_is (r : list bytes) (k : String.string) : bool := beqb (nth 0 r []) (bs k).
+Definition mem_nat (n : nat) (l : list nat) : bool := existsb (Nat.eqb n) l.
 
 (* target resolution: full pattern and the facade's middlewares (C19's desugaring) *)
 Definition full_pattern (s : srt) (tgt pattern : bytes) : bytes :=
@@ -821,7 +824,12 @@ Definition oracle_all (s s' : srt) (o : line) (r : list bytes) : list bytes :=
       let cnt := negb (counters_ok (rtree (rt s))) in
       (if broken then map (fun p => p ++ bs ":tree-invariant-broken-in-reached-state") [bs "C01"; bs "C02"; bs "C03"; bs "C05"] else []) ++
       (if broken || cnt then [cl "C04:bitset-or-counter-invariant-broken-in-reached-state"] else []))
-   else if beqb op (bs "c19eq") then check (obs_is r "1") "C19:facade-program-differs-from-its-desugaring"
+   else if beqb op (bs "c19eq") then
+     (* the two runs may differ on a request for which the documented procedure admits several answers ("either may
+        win": which of two same-kind parameters is tried first depends on incidental node order, and Prefix.Clean
+        leaves an emptied inner node in place where Remove prunes it) *)
+     check (obs_is r "1" || mem_nat (opt_default O (dec_to_nat (nth 1 r []))) (amb s))
+           "C19:facade-program-differs-from-its-desugaring"
    else if beqb op (bs "creq") then creq_clauses s o r
    else if beqb op (bs "script") then script_clauses s o r
    else if beqb op (bs "tracehelper") then tracehelper_clauses o r
@@ -840,7 +848,7 @@ Definition oracle_rt (s s' : srt) (o : line) (r : list bytes) : list bytes :=
                         (has_prefix c (bs "known:twin-of-only-route") && beqb (pid s) (bs "C17"))) all.
 
 (* ---- the specification side follows what the implementation accepted *)
-Definition absorb_rt (s : srt) (o : line) (r : list bytes) : srt :=
+Definition absorb_rt0 (s : srt) (o : line) (r : list bytes) : srt :=
   let op := arg 0 o in
   let a := args o in
   let clear (s : srt) := s <| memo := [] |> <| rejected := false |> in
@@ -880,6 +888,16 @@ Definition absorb_rt (s : srt) (o : line) (r : list bytes) : srt :=
     then s1 <| frame := memo_set [arg 1 o; arg 2 o] ([nth 1 r []; nth 2 r []; nth 4 r []] ++ skipn 8 r) (frame s1) |>
     else s1
   else s.
+
+Definition absorb_rt (s : srt) (o : line) (r : list bytes) : srt :=
+  let ambiguous :=
+    beqb (arg 0 o) (bs "serve") &&
+    match live_toks s with
+    | Some lt => match resolve (c_ic (tc s)) lt (arg 2 o) with _ :: _ :: _ => true | _ => false end
+    | None => true                (* a table outside the judged fragment: no claim about this request *)
+    end in
+  let s1 := absorb_rt0 s o r in
+  s1 <| opn := S (opn s) |> <| amb := if ambiguous then opn s :: amb s else amb s |>.
 
 Definition tags_rt (s s' : srt) (o : line) (r : list bytes) : list bytes :=
   if unsup s' then [bs "unsup"] else
